@@ -1,6 +1,818 @@
-//! C13 rig (see DESIGN.md section 3/C13) - filled in by the C13 check.
-use crate::util::Args;
+//! C13 rig (see DESIGN.md section 3/C13): heartbeat expiry of ephemeral HTTP instances as bounded progress.
+//!
+//! A stand-alone real `NamingActor` (own thread/system, as `starter::config_factory` creates it) gets a small
+//! `Arc<AppSysConfig>` injected through a `bean_factory::BeanFactory` (health time-out 0 s, instance time-out 1 s; the
+//! actor adds 3 s, so H = 3 s, T = 4 s) and runs its own 2 s timer on the real wall clock. About 400 instances per run
+//! follow seeded timelines concurrently (register / heartbeat / silence / resume / replace / flip ephemeral<->persistent /
+//! switch HTTP<->gRPC owner / take-over from a failed node). Every 250 ms every service is queried
+//! (`QueryAllInstanceList` and the healthy-only `QueryList`). The oracle works on the RECORDED call/ack times.
+use crate::util::{rng, Args, Report};
+use bean_factory::{BeanDefinition, BeanFactory};
+use rand::rngs::StdRng;
+use rand::Rng;
+use rnacos::common::hash_utils::get_hash_value;
+use rnacos::common::AppSysConfig;
+use rnacos::naming::cluster::model::ProcessRange;
+use rnacos::naming::core::{NamingActor, NamingCmd, NamingResult};
+use rnacos::naming::model::{Instance, InstanceUpdateTag, ServiceKey};
+use rnacos::naming::verif_hooks::VerifNamingProbe;
+use serde_json::{json, Value};
+use std::cell::RefCell;
+use std::collections::HashMap;
+use std::rc::Rc;
+use std::sync::Arc;
+use std::time::{Duration, Instant};
 
-pub fn run(_args: &Args) -> anyhow::Result<()> {
-    anyhow::bail!("not implemented")
+const H: i64 = 3000; // naming_health_timeout 0 + 3000 added by NamingActor::inject
+const T: i64 = 4000; // naming_instance_timeout 1000 + 3000
+const TICK: i64 = 2000; // NamingActor::instance_time_out_heartbeat
+const SLACK: i64 = 1500;
+const EPS: i64 = 20; // early side: the recorded call time is a true lower bound of last_modified_millis (same clock)
+const RUN_MS: u64 = 25_000;
+const QUERY_MS: u64 = 250;
+const NODE_ID: u64 = 7;
+const STALL_MS: i64 = 400;
+
+fn now_ms() -> i64 {
+    use std::time::{SystemTime, UNIX_EPOCH};
+    SystemTime::now().duration_since(UNIX_EPOCH).unwrap().as_millis() as i64
+}
+
+#[derive(Clone, Debug, PartialEq)]
+enum Op {
+    /// HTTP POST /instance: Update(instance, Some(tag{enabled, ephemeral, from_update})) - or tag None (the shape the
+    /// cluster's SyncUpdateInstance uses) when `tagged` is false
+    HttpReg { ephemeral: bool, tagged: bool },
+    /// HTTP PUT /instance/beat: Update(instance, Some(all-false tag))
+    Beat,
+    /// gRPC InstanceRequest: Update(instance{from_grpc, client_id}, Some(tag{metadata}))
+    GrpcReg,
+    /// connection closed: RemoveClient(client_id)
+    RemoveClient,
+    /// HTTP DELETE /instance
+    Dereg,
+    /// copy pushed by the owning node 2: UpdateBatch([instance{from_cluster: 2}])
+    SyncIn,
+    /// a (stale) copy of an instance THIS node supervises, pushed by node 2 in a snapshot / batch: UpdateBatch([.. from_cluster 2])
+    SyncCopy,
+    /// global: ClusterRefreshProcessRange((0,1)) - node 2 failed, the local node is responsible for everything
+    TakeOver,
+}
+
+impl Op {
+    fn name(&self) -> String {
+        match self {
+            Op::HttpReg { ephemeral, tagged } => format!("http-register(ephemeral={},{})", ephemeral, if *tagged { "http-tag" } else { "no-tag" }),
+            Op::Beat => "http-beat".into(),
+            Op::GrpcReg => "grpc-register".into(),
+            Op::RemoveClient => "grpc-client-removed".into(),
+            Op::Dereg => "http-deregister".into(),
+            Op::SyncIn => "sync-from-owner-node-2".into(),
+            Op::SyncCopy => "copy-of-own-instance-pushed-by-node-2".into(),
+            Op::TakeOver => "take-over(range 0/1)".into(),
+        }
+    }
+}
+
+struct Timeline {
+    idx: usize,
+    kind: String,
+    svc: usize,
+    port: u32,
+    client_id: Arc<String>,
+    steps: Vec<(u64, Op)>,
+}
+
+#[derive(Clone, Debug)]
+struct Ev {
+    op: Op,
+    call: i64,
+    ack: i64,
+}
+
+fn beats(steps: &mut Vec<(u64, Op)>, from: u64, until: u64, period: u64, op: Op) -> u64 {
+    let mut t = from + period;
+    let mut last = from;
+    while t <= until {
+        steps.push((t, op.clone()));
+        last = t;
+        t += period;
+    }
+    last
+}
+
+fn plan(r: &mut StdRng, n: usize, n_even: usize, n_odd: usize, tf_ms: u64) -> Vec<Timeline> {
+    let periods = [500u64, 1000, 2000, 2400];
+    let mut out = vec![];
+    let mut idx = 0;
+    let mut push = |out: &mut Vec<Timeline>, kind: String, svc: usize, steps: Vec<(u64, Op)>| {
+        out.push(Timeline { idx, kind, svc, port: 10_000 + idx as u32, client_id: Arc::new(format!("{}_{}", NODE_ID, 9000 + idx)), steps });
+        idx += 1;
+    };
+    // anchors: one always-healthy instance per service, so that the protection threshold (all unhealthy -> all listed
+    // as healthy) never masks the healthy-only list. Even services: steadily heart-beating HTTP; odd: gRPC-owned.
+    for s in 0..n_even {
+        let mut st = vec![(0, Op::HttpReg { ephemeral: true, tagged: true })];
+        beats(&mut st, 0, RUN_MS - 100, 1000, Op::Beat);
+        push(&mut out, "anchor-steady".into(), s, st);
+    }
+    for s in 0..n_odd {
+        push(&mut out, "anchor-grpc".into(), n_even + s, vec![(0, Op::GrpcReg)]);
+    }
+    while out.len() < n {
+        let p = periods[r.gen_range(0..4)];
+        let t0 = r.gen_range(100..5000u64);
+        let d = r.gen_range(1000..5000u64);
+        let even = r.gen_range(0..n_even);
+        let odd = n_even + r.gen_range(0..n_odd);
+        let reg = Op::HttpReg { ephemeral: true, tagged: true };
+        let mut st = vec![];
+        match r.gen_range(0..100) {
+            0..=9 => {
+                st.push((t0, reg));
+                beats(&mut st, t0, t0 + d, p, Op::Beat);
+                push(&mut out, format!("silent/p{}", p), even, st);
+            }
+            10..=13 => {
+                // silent; meanwhile another node pushes its (stale) copy of this locally supervised instance (naming snapshot
+                // exchange / batch sync). A copy is not a heartbeat: the instance still has to expire.
+                st.push((t0, reg));
+                let last = beats(&mut st, t0, t0 + d, p, Op::Beat);
+                let g = if r.gen_bool(0.6) { r.gen_range(300..2700u64) } else { r.gen_range(3200..5200u64) };
+                st.push((last + g, Op::SyncCopy));
+                push(&mut out, format!("sync-copy-during-silence-{}", if g < H as u64 { "while-H-entry-queued" } else { "while-T-entry-queued" }), even, st);
+            }
+            14..=21 => {
+                st.push((t0, reg));
+                beats(&mut st, t0, RUN_MS - 200, p, Op::Beat);
+                push(&mut out, format!("steady/p{}", p), even, st);
+            }
+            22..=41 => {
+                // silence of a chosen length, then the heartbeats resume
+                st.push((t0, reg));
+                let last = beats(&mut st, t0, t0 + d, p, Op::Beat);
+                let (band, g) = match r.gen_range(0..6) {
+                    0 => ("just-before-H", r.gen_range(2600..2950u64)),
+                    1 => ("just-after-H", r.gen_range(3050..3500u64)),
+                    2 => ("around-T", r.gen_range(3800..4200u64)),
+                    3 => ("between-T-and-bound", r.gen_range(5000..6000u64)),
+                    4 => ("after-H-bound", r.gen_range(6700..7300u64)),
+                    _ => ("after-T-bound", r.gen_range(7700..8500u64)),
+                };
+                let back = last + g;
+                st.push((back, Op::Beat));
+                let d2 = r.gen_range(500..2500u64);
+                beats(&mut st, back, back + d2, p, Op::Beat);
+                push(&mut out, format!("resume-{}/p{}", band, p), even, st);
+            }
+            42..=53 => {
+                // replaced (re-registered / deregistered+registered) while an expiry entry is queued
+                st.push((t0, reg));
+                let last = beats(&mut st, t0, t0 + d, p, Op::Beat);
+                let g = r.gen_range(500..4500u64);
+                let how = r.gen_range(0..3);
+                let name = match how {
+                    0 => {
+                        st.push((last + g, Op::HttpReg { ephemeral: true, tagged: true }));
+                        "replace-http-register"
+                    }
+                    1 => {
+                        st.push((last + g, Op::HttpReg { ephemeral: true, tagged: false }));
+                        "replace-untagged-update"
+                    }
+                    _ => {
+                        st.push((last + g, Op::Dereg));
+                        st.push((last + g + r.gen_range(0..300u64), Op::HttpReg { ephemeral: true, tagged: true }));
+                        "deregister-then-register"
+                    }
+                };
+                push(&mut out, format!("{}-{}", name, if g < H as u64 { "while-H-entry-queued" } else { "while-T-entry-queued" }), even, st);
+            }
+            54..=65 => {
+                // flipped to persistent while an expiry is pending, possibly back later
+                st.push((t0, reg));
+                let last = beats(&mut st, t0, t0 + d, p, Op::Beat);
+                let g = r.gen_range(500..4500u64);
+                st.push((last + g, Op::HttpReg { ephemeral: false, tagged: true }));
+                let mut name = format!("flip-to-persistent-{}", if g < H as u64 { "while-H-entry-queued" } else { "while-T-entry-queued" });
+                if r.gen_bool(0.5) {
+                    let u = last + g + r.gen_range(3000..6000u64);
+                    st.push((u, Op::HttpReg { ephemeral: true, tagged: true }));
+                    name.push_str("-then-back-to-ephemeral");
+                } else if r.gen_bool(0.5) {
+                    // heartbeats of the old client keep coming for the now persistent instance, then stop
+                    beats(&mut st, last + g, last + g + 3000, p, Op::Beat);
+                    name.push_str("-then-beats");
+                }
+                push(&mut out, name, even, st);
+            }
+            66..=70 => {
+                st.push((t0, Op::HttpReg { ephemeral: false, tagged: true }));
+                let mut name = "persistent-first".to_string();
+                if r.gen_bool(0.6) {
+                    st.push((t0 + r.gen_range(4500..9000u64), Op::HttpReg { ephemeral: true, tagged: true }));
+                    name.push_str("-then-ephemeral");
+                }
+                push(&mut out, name, even, st);
+            }
+            71..=80 => {
+                // owner switches HTTP -> gRPC while an expiry is pending; possibly back to HTTP later
+                st.push((t0, reg));
+                let last = beats(&mut st, t0, t0 + d, p, Op::Beat);
+                let g = r.gen_range(500..4500u64);
+                st.push((last + g, Op::GrpcReg));
+                let mut name = format!("http-to-grpc-{}", if g < H as u64 { "while-H-entry-queued" } else { "while-T-entry-queued" });
+                let mut t = last + g;
+                if r.gen_bool(0.5) {
+                    t = beats(&mut st, t, t + 2500, p, Op::Beat);
+                    name.push_str("-http-beats-continue");
+                }
+                if r.gen_bool(0.5) {
+                    let u = t + r.gen_range(3000..5000u64);
+                    st.push((u, Op::RemoveClient));
+                    st.push((u + r.gen_range(50..1500u64), Op::HttpReg { ephemeral: true, tagged: true }));
+                    name.push_str("-then-back-to-http");
+                }
+                push(&mut out, name, even, st);
+            }
+            81..=84 => {
+                st.push((t0, Op::GrpcReg));
+                let mut name = "grpc-first".to_string();
+                if r.gen_bool(0.5) {
+                    beats(&mut st, t0, t0 + d, p, Op::Beat);
+                    name.push_str("-with-http-beats");
+                }
+                push(&mut out, name, even, st);
+            }
+            85..=93 => {
+                // copy synced from owner node 2 (beats forwarded by the owner), node 2 fails, nothing arrives any more
+                let stop = tf_ms - r.gen_range(150..5000u64);
+                let t0 = t0.min(stop.saturating_sub(600));
+                st.push((t0, Op::SyncIn));
+                beats(&mut st, t0, stop, p, Op::SyncIn);
+                push(&mut out, "take-over-then-silent".to_string(), odd, st);
+            }
+            _ => {
+                // same, but the client finds the surviving node and keeps heart-beating there for a while
+                let stop = tf_ms - r.gen_range(150..3000u64);
+                let t0 = t0.min(stop.saturating_sub(600));
+                st.push((t0, Op::SyncIn));
+                beats(&mut st, t0, stop, p, Op::SyncIn);
+                let first = tf_ms + r.gen_range(200..2500u64);
+                st.push((first, Op::Beat));
+                beats(&mut st, first, first + r.gen_range(500..3000u64), p, Op::Beat);
+                push(&mut out, "take-over-then-direct-beats".to_string(), odd, st);
+            }
+        }
+    }
+    out
+}
+
+fn mk_instance(svc: &ServiceKey, port: u32) -> Instance {
+    let mut i = Instance::new("10.1.1.1".to_string(), port);
+    i.namespace_id = svc.namespace_id.clone();
+    i.group_name = svc.group_name.clone();
+    i.service_name = svc.service_name.clone();
+    i.generate_key();
+    i
+}
+
+fn cmd_of(op: &Op, svc: &ServiceKey, port: u32, client_id: &Arc<String>) -> NamingCmd {
+    let mut i = mk_instance(svc, port);
+    match op {
+        Op::HttpReg { ephemeral, tagged } => {
+            i.ephemeral = *ephemeral;
+            let tag = InstanceUpdateTag { weight: false, metadata: false, enabled: true, ephemeral: true, from_update: true };
+            NamingCmd::Update(i, if *tagged { Some(tag) } else { None })
+        }
+        Op::Beat => {
+            let tag = InstanceUpdateTag { weight: false, metadata: false, enabled: false, ephemeral: false, from_update: false };
+            NamingCmd::Update(i, Some(tag))
+        }
+        Op::GrpcReg => {
+            i.from_grpc = true;
+            i.client_id = client_id.clone();
+            let tag = InstanceUpdateTag { weight: false, metadata: true, enabled: false, ephemeral: false, from_update: false };
+            NamingCmd::Update(i, Some(tag))
+        }
+        Op::RemoveClient => NamingCmd::RemoveClient(client_id.clone()),
+        Op::Dereg => NamingCmd::Delete(i),
+        Op::SyncIn | Op::SyncCopy => {
+            i.from_cluster = 2;
+            NamingCmd::UpdateBatch(vec![i])
+        }
+        Op::TakeOver => NamingCmd::ClusterRefreshProcessRange(ProcessRange::new(0, 1)),
+    }
+}
+
+// ------------------------------------------------------------------------------------------------ model + oracle
+
+#[derive(Clone, Debug, PartialEq)]
+enum Mode {
+    /// nothing is demanded (never registered, deregistered, client removed, or copy owned by another node)
+    Unknown,
+    Http,
+    Persistent,
+    Grpc,
+    Remote,
+    TakenOver,
+}
+
+#[derive(Clone, Debug)]
+struct St {
+    mode: Mode,
+    /// call / ack time of the operation that last refreshed last_modified_millis
+    c: i64,
+    a: i64,
+    tf: i64,
+    origin: &'static str,
+}
+
+fn fold(st: &St, ev: &Ev) -> St {
+    let mut s = st.clone();
+    match &ev.op {
+        Op::HttpReg { ephemeral: true, .. } => {
+            if s.mode != Mode::Grpc {
+                s.origin = match s.mode {
+                    Mode::Persistent => "flipped-back-to-ephemeral",
+                    Mode::Http => "re-registered",
+                    Mode::Unknown if s.origin == "grpc-client-removed" => "http-register-after-grpc-disconnect",
+                    Mode::Unknown if s.origin == "deregistered" => "registered-after-deregister",
+                    _ => "registered",
+                };
+                s.mode = Mode::Http;
+                s.c = ev.call;
+                s.a = ev.ack;
+            }
+        }
+        Op::HttpReg { ephemeral: false, .. } => {
+            s.origin = if s.mode == Mode::Http { "flipped-to-persistent" } else { "registered-persistent" };
+            s.mode = Mode::Persistent;
+            s.c = ev.call;
+            s.a = ev.ack;
+        }
+        Op::Beat => match s.mode {
+            Mode::Http => {
+                s.c = ev.call;
+                s.a = ev.ack;
+            }
+            Mode::Unknown => {
+                s.mode = Mode::Http;
+                s.origin = "created-by-beat";
+                s.c = ev.call;
+                s.a = ev.ack;
+            }
+            Mode::TakenOver => {
+                s.mode = Mode::Http;
+                s.origin = "direct-beat-after-take-over";
+                s.c = ev.call;
+                s.a = ev.ack;
+            }
+            Mode::Remote => {
+                // not generated: a direct beat for a service the local node is not responsible for
+                s.mode = Mode::Unknown;
+            }
+            Mode::Persistent | Mode::Grpc => {}
+        },
+        Op::GrpcReg => {
+            s.origin = if s.mode == Mode::Http { "switched-http-to-grpc" } else { "grpc-registered" };
+            s.mode = Mode::Grpc;
+            s.c = ev.call;
+            s.a = ev.ack;
+        }
+        Op::RemoveClient => {
+            if s.mode == Mode::Grpc {
+                s.mode = Mode::Unknown;
+                s.origin = "grpc-client-removed";
+            }
+        }
+        Op::Dereg => {
+            s.mode = Mode::Unknown;
+            s.origin = "deregistered";
+        }
+        Op::SyncIn => {
+            if s.mode == Mode::Unknown || s.mode == Mode::Remote {
+                s.mode = Mode::Remote;
+                s.origin = "synced-from-owner";
+                s.c = ev.call;
+                s.a = ev.ack;
+            }
+        }
+        Op::SyncCopy => {
+            if s.mode == Mode::Http {
+                // lenient: the late bounds are counted from the copy's arrival (an implementation may treat it as a refresh),
+                // the early bounds stay on the last real heartbeat (an implementation may just as well ignore the copy)
+                s.a = s.a.max(ev.ack);
+                s.origin = "sync-copy-overwrote-supervised-instance";
+            }
+        }
+        Op::TakeOver => {
+            if s.mode == Mode::Remote {
+                s.mode = Mode::TakenOver;
+                s.origin = "taken-over-from-failed-node";
+                s.tf = ev.ack;
+            }
+        }
+    }
+    s
+}
+
+/// observation of one instance in one query: 'H' listed healthy, 'U' listed unhealthy, 'A' absent
+#[derive(Clone, Copy, PartialEq, Debug)]
+enum Seen {
+    Healthy,
+    Unhealthy,
+    Absent,
+}
+
+struct Query {
+    call: i64,
+    ack: i64,
+    /// port -> healthy flag
+    list: HashMap<u32, bool>,
+}
+
+struct Verdict {
+    symptom: &'static str,
+    rule: String,
+    late: bool,
+}
+
+/// what the restated property demands of an observation made in [q.call, q.ack] when the instance is in state `st`.
+/// `healthy_only` = the observation comes from the healthy-only list (absent there = unhealthy or absent).
+fn demand(st: &St, q_call: i64, q_ack: i64, seen: Seen, healthy_only: bool) -> (u8, Option<Verdict>) {
+    // returns (number of must-rules that applied, first violated rule)
+    let mut applied = 0u8;
+    let mut bad: Option<Verdict> = None;
+    let mut check = |cond: bool, ok: bool, symptom: &'static str, rule: String, late: bool| {
+        if cond {
+            applied += 1;
+            if !ok && bad.is_none() {
+                bad = Some(Verdict { symptom, rule, late });
+            }
+        }
+    };
+    match st.mode {
+        Mode::Http | Mode::TakenOver => {
+            let (dl_h, dl_t) = if st.mode == Mode::Http {
+                (st.a + H + TICK + SLACK, st.a + T + TICK + SLACK)
+            } else {
+                // the take-over node can only start its clock when it learns that it is responsible (tf); it walks the
+                // instance through "unhealthy" first, hence two ticks for the removal
+                ((st.a + H).max(st.tf) + TICK + SLACK, (st.a + T).max(st.tf) + 2 * TICK + SLACK)
+            };
+            if !healthy_only {
+                check(q_ack < st.c + T - EPS, seen != Seen::Absent, "removed-before-instance-timeout",
+                      format!("absent {} ms after the call of the last refresh, i.e. before last_refresh_call+T", q_ack - st.c), false);
+                check(q_ack < st.c + H - EPS, seen != Seen::Unhealthy, "unhealthy-before-health-timeout",
+                      format!("unhealthy {} ms after the call of the last refresh, i.e. before last_refresh_call+H", q_ack - st.c), false);
+                check(q_call > dl_t, seen == Seen::Absent, "still-present-after-instance-timeout-bound",
+                      format!("observed {} ms after the acknowledged last refresh; bound {} ms", q_call - st.a, dl_t - st.a), true);
+            } else {
+                check(q_ack < st.c + H - EPS, seen == Seen::Healthy, "not-listed-healthy-before-health-timeout",
+                      format!("not in the healthy-only list {} ms after the call of the last refresh, i.e. before last_refresh_call+H", q_ack - st.c), false);
+            }
+            check(q_call > dl_h, seen != Seen::Healthy, "still-healthy-after-health-timeout-bound",
+                  format!("observed {} ms after the acknowledged last refresh; bound {} ms", q_call - st.a, dl_h - st.a), true);
+        }
+        Mode::Persistent | Mode::Grpc => {
+            check(true, seen == Seen::Healthy, "expired-although-not-subject-to-heartbeat-clock",
+                  format!("observed {} ms after the acknowledged {}", q_call - st.a, st.origin), false);
+        }
+        Mode::Unknown | Mode::Remote => {}
+    }
+    (applied, bad)
+}
+
+struct RunOut {
+    stalled: bool,
+}
+
+async fn one_run(seed: u64, n_inst: usize, rep: &mut Report) -> anyhow::Result<RunOut> {
+    let mut r = rng(seed);
+    // ---- the actor, configured as starter.rs does it
+    let sys_config = Arc::new(AppSysConfig {
+        raft_node_id: NODE_ID,
+        naming_health_timeout: 0,
+        naming_instance_timeout: 1000,
+        ..Default::default()
+    });
+    let factory = BeanFactory::new();
+    factory.register(BeanDefinition::from_obj(sys_config.clone()));
+    let naming = NamingActor::create_at_new_system();
+    factory.register(BeanDefinition::actor_with_inject_from_obj(naming.clone()));
+    let _fd = factory.init().await;
+    let t = Instant::now();
+    loop {
+        let p = naming.send(VerifNamingProbe).await?;
+        if p["node_id"].as_u64() == Some(NODE_ID) {
+            break;
+        }
+        if t.elapsed() > Duration::from_secs(3) {
+            anyhow::bail!("NamingActor was not injected with the short time-outs within 3 s");
+        }
+        tokio::time::sleep(Duration::from_millis(20)).await;
+    }
+    // ---- services: even hash = in the local range (0,2); odd hash = owned by node 2 until it fails
+    let (n_even, n_odd) = (12usize, 6usize);
+    let mut even = vec![];
+    let mut odd = vec![];
+    let mut i = 0;
+    while even.len() < n_even || odd.len() < n_odd {
+        i += 1;
+        let k = ServiceKey::new("public", "DEFAULT_GROUP", &format!("c13-{}-{}", seed, i));
+        if get_hash_value(&k) % 2 == 0 {
+            if even.len() < n_even {
+                even.push(k)
+            }
+        } else if odd.len() < n_odd {
+            odd.push(k)
+        }
+    }
+    let services: Vec<ServiceKey> = even.into_iter().chain(odd.into_iter()).collect();
+    let tf_ms: u64 = r.gen_range(8000..10_000);
+    let tls = plan(&mut r, n_inst, n_even, n_odd, tf_ms);
+    // cluster of two nodes, the local one has index 0
+    naming
+        .send(NamingCmd::ClusterRefreshProcessRange(ProcessRange::new(0, 2)))
+        .await?
+        .map_err(|e| anyhow::anyhow!("refresh range: {}", e))?;
+
+    let start = Instant::now();
+    let start_ms = now_ms();
+    let events: Vec<Rc<RefCell<Vec<Ev>>>> = tls.iter().map(|_| Rc::new(RefCell::new(vec![]))).collect();
+    let taken_over = Rc::new(RefCell::new(false));
+    let errors = Rc::new(RefCell::new(0u64));
+    let mut handles = vec![];
+    for tl in &tls {
+        let naming = naming.clone();
+        let rec = events[tl.idx].clone();
+        let svc = services[tl.svc].clone();
+        let steps = tl.steps.clone();
+        let (port, client_id) = (tl.port, tl.client_id.clone());
+        let taken_over = taken_over.clone();
+        let errors = errors.clone();
+        handles.push(actix_rt::spawn(async move {
+            for (at, op) in steps {
+                tokio::time::sleep_until(tokio::time::Instant::from_std(start + Duration::from_millis(at))).await;
+                if op == Op::SyncIn && *taken_over.borrow() {
+                    continue; // the owner is dead: it cannot forward anything any more
+                }
+                let cmd = cmd_of(&op, &svc, port, &client_id);
+                let call = now_ms();
+                let res = naming.send(cmd).await;
+                let ack = now_ms();
+                match res {
+                    Ok(Ok(_)) => rec.borrow_mut().push(Ev { op, call, ack }),
+                    _ => *errors.borrow_mut() += 1,
+                }
+            }
+        }));
+    }
+    // the global take-over
+    let takeover_ev: Rc<RefCell<Option<Ev>>> = Rc::new(RefCell::new(None));
+    {
+        let naming = naming.clone();
+        let taken_over = taken_over.clone();
+        let takeover_ev = takeover_ev.clone();
+        handles.push(actix_rt::spawn(async move {
+            tokio::time::sleep_until(tokio::time::Instant::from_std(start + Duration::from_millis(tf_ms))).await;
+            *taken_over.borrow_mut() = true;
+            let call = now_ms();
+            let res = naming.send(NamingCmd::ClusterRefreshProcessRange(ProcessRange::new(0, 1))).await;
+            let ack = now_ms();
+            if let Ok(Ok(_)) = res {
+                *takeover_ev.borrow_mut() = Some(Ev { op: Op::TakeOver, call, ack });
+            }
+        }));
+    }
+    // ---- the observer: every 250 ms both lists of every service; also measures stalls of this thread and of the actor
+    let mut q_all: Vec<Vec<Query>> = services.iter().map(|_| vec![]).collect();
+    let mut q_healthy: Vec<Vec<Query>> = services.iter().map(|_| vec![]).collect();
+    let mut max_lag = 0i64;
+    let mut tick = 0u64;
+    while tick * QUERY_MS < RUN_MS {
+        tick += 1;
+        let due = start + Duration::from_millis(tick * QUERY_MS);
+        tokio::time::sleep_until(tokio::time::Instant::from_std(due)).await;
+        max_lag = max_lag.max(Instant::now().saturating_duration_since(due).as_millis() as i64);
+        for (si, svc) in services.iter().enumerate() {
+            let call = now_ms();
+            let res = naming.send(NamingCmd::QueryAllInstanceList(svc.clone())).await;
+            let ack = now_ms();
+            max_lag = max_lag.max(ack - call);
+            if let Ok(Ok(NamingResult::InstanceList(list))) = res {
+                q_all[si].push(Query { call, ack, list: list.iter().map(|i| (i.port, i.healthy)).collect() });
+            }
+            let call = now_ms();
+            let res = naming.send(NamingCmd::QueryList(svc.clone(), "".to_string(), true, None)).await;
+            let ack = now_ms();
+            max_lag = max_lag.max(ack - call);
+            if let Ok(Ok(NamingResult::InstanceList(list))) = res {
+                q_healthy[si].push(Query { call, ack, list: list.iter().map(|i| (i.port, i.healthy)).collect() });
+            }
+        }
+    }
+    for h in handles {
+        h.abort();
+    }
+    let probe = naming.send(VerifNamingProbe).await?;
+    let stalled = max_lag > STALL_MS;
+    rep.count("runs", 1);
+    rep.count("max_lag_ms_sum", max_lag as u64);
+    if stalled {
+        rep.count("runs_with_stall", 1);
+    }
+    rep.count("harness_send_errors", *errors.borrow());
+    let tk = takeover_ev.borrow().clone();
+    if tk.is_none() {
+        anyhow::bail!("the take-over message was not acknowledged");
+    }
+    let tk = tk.unwrap();
+    // index the probe
+    let mut probe_inst: HashMap<u32, Value> = HashMap::new();
+    let mut probe_svc: HashMap<String, Value> = HashMap::new();
+    for s in probe["services"].as_array().cloned().unwrap_or_default() {
+        for i in s["instances"].as_array().cloned().unwrap_or_default() {
+            probe_inst.insert(i["port"].as_u64().unwrap_or(0) as u32, i);
+        }
+        probe_svc.insert(
+            s["service"].as_str().unwrap_or("").to_string(),
+            json!({"healthy_timeout_set_len": s["healthy_timeout_set_len"], "unhealthy_timeout_set_len": s["unhealthy_timeout_set_len"], "instance_size": s["instance_size"]}),
+        );
+    }
+    // anchors healthy per query tick (healthy-only list is only a pure filter while one instance of the service is healthy)
+    let anchor_port: Vec<u32> = (0..services.len()).map(|s| tls.iter().find(|t| t.svc == s && t.kind.starts_with("anchor")).map(|t| t.port).unwrap_or(0)).collect();
+
+    // ---- the oracle
+    for tl in &tls {
+        let mut evs: Vec<Ev> = events[tl.idx].borrow().clone();
+        if tl.svc >= n_even {
+            evs.push(tk.clone());
+        }
+        evs.sort_by_key(|e| e.call);
+        if evs.is_empty() {
+            continue;
+        }
+        rep.evaluations += 1;
+        // states after each prefix
+        let mut states = vec![];
+        let mut st = St { mode: Mode::Unknown, c: 0, a: 0, tf: 0, origin: "never-registered" };
+        for e in &evs {
+            st = fold(&st, e);
+            states.push(st.clone());
+        }
+        let mut obs_string = String::new();
+        let mut judged = 0u64;
+        let mut in_band = 0u64;
+        let mut expiry_pending = false;
+        let views: [(&Vec<Query>, bool); 2] = [(&q_all[tl.svc], false), (&q_healthy[tl.svc], true)];
+        for (qs, healthy_only) in views {
+            for (qi, q) in qs.iter().enumerate() {
+                // definite prefix: operations acknowledged before the query was sent; operations in flight -> skip
+                let k = evs.iter().take_while(|e| e.ack < q.call).count();
+                if evs.iter().any(|e| e.ack >= q.call && e.call <= q.ack) {
+                    rep.count("observations_skipped_operation_in_flight", 1);
+                    continue;
+                }
+                if k == 0 {
+                    continue;
+                }
+                let st = &states[k - 1];
+                let seen = match q.list.get(&tl.port) {
+                    Some(true) => Seen::Healthy,
+                    Some(false) => Seen::Unhealthy,
+                    None => Seen::Absent,
+                };
+                if healthy_only {
+                    // pure filter only while the anchor is healthy in the unfiltered list taken in the same round
+                    let anchor_ok = q_all[tl.svc].get(qi).map(|qa| qa.list.get(&anchor_port[tl.svc]) == Some(&true)).unwrap_or(false);
+                    if !anchor_ok {
+                        rep.count("healthy_list_observations_skipped_protection_threshold", 1);
+                        continue;
+                    }
+                } else {
+                    let c = match seen {
+                        Seen::Healthy => 'H',
+                        Seen::Unhealthy => 'U',
+                        Seen::Absent => 'A',
+                    };
+                    if !obs_string.ends_with(c) {
+                        obs_string.push(c);
+                    }
+                }
+                if st.mode == Mode::Http || st.mode == Mode::TakenOver {
+                    expiry_pending = true;
+                }
+                let (applied, bad) = demand(st, q.call, q.ack, seen, healthy_only);
+                if applied == 0 {
+                    if st.mode == Mode::Http || st.mode == Mode::TakenOver {
+                        in_band += 1;
+                    }
+                    continue;
+                }
+                judged += 1;
+                rep.count(if healthy_only { "judged_observations_healthy_only_list" } else { "judged_observations_all_list" }, 1);
+                if let Some(v) = bad {
+                    if v.late && stalled {
+                        rep.count("late_findings_dropped_because_run_stalled", 1);
+                        continue;
+                    }
+                    let mode = match st.mode {
+                        Mode::Http => "http-ephemeral",
+                        Mode::TakenOver => "http-ephemeral-taken-over",
+                        Mode::Persistent => "persistent",
+                        Mode::Grpc => "grpc-owned",
+                        _ => "other",
+                    };
+                    let view = if healthy_only { "/seen-in-healthy-only-list" } else { "" };
+                    // the healthy-only list is reported on its own only when the unfiltered list is fine in the same round and
+                    // in the next one (the two lists of a round are two messages: a tick can fall between them)
+                    if healthy_only {
+                        let mut also_unfiltered = false;
+                        for qa in q_all[tl.svc].iter().skip(qi).take(2) {
+                            let s2 = match qa.list.get(&tl.port) {
+                                Some(true) => Seen::Healthy,
+                                Some(false) => Seen::Unhealthy,
+                                None => Seen::Absent,
+                            };
+                            let k2 = evs.iter().take_while(|e| e.ack < qa.call).count();
+                            if k2 == 0 || evs.iter().any(|e| e.ack >= qa.call && e.call <= qa.ack) {
+                                also_unfiltered = true; // cannot tell: do not open a separate finding
+                            } else if demand(&states[k2 - 1], qa.call, qa.ack, s2, false).1.is_some() {
+                                also_unfiltered = true;
+                            }
+                        }
+                        if also_unfiltered {
+                            continue;
+                        }
+                    }
+                    let sig = format!("{}/{}/{}{}", v.symptom, mode, st.origin, view);
+                    let rel = |t: i64| t - start_ms;
+                    rep.violation(
+                        sig,
+                        json!({
+                            "run_seed": seed, "timeline": tl.kind, "service": services[tl.svc].service_name.as_str(), "ip": "10.1.1.1", "port": tl.port,
+                            "H_ms": H, "T_ms": T, "tick_ms": TICK, "slack_ms": SLACK,
+                            "rule": v.rule, "observed": format!("{:?}", seen), "query": {"call_ms": rel(q.call), "ack_ms": rel(q.ack), "healthy_only_list": healthy_only},
+                            "state": {"mode": mode, "origin": st.origin, "last_refresh_call_ms": rel(st.c), "last_refresh_ack_ms": rel(st.a),
+                                      "take_over_ack_ms": if st.mode == Mode::TakenOver { json!(rel(st.tf)) } else { Value::Null }},
+                            "recorded_operations": evs.iter().map(|e| json!([e.op.name(), rel(e.call), rel(e.ack)])).collect::<Vec<_>>(),
+                            "probe_at_end_of_run": {"instance": probe_inst.get(&tl.port), "service": probe_svc.get(services[tl.svc].service_name.as_str()),
+                                                    "current_range": probe["current_range"]},
+                            "max_lag_ms_in_run": max_lag,
+                        }),
+                    );
+                }
+            }
+        }
+        if judged > 0 {
+            rep.count("timelines_judged", 1);
+        }
+        if in_band > 0 && (tl.kind.starts_with("resume") || tl.kind.starts_with("replace") || tl.kind.starts_with("deregister")) {
+            // a resumed/replaced timeline whose recorded gap fell between "must still be healthy" and "must have expired"
+            let gaps: Vec<i64> = evs.windows(2).map(|w| w[1].call - w[0].ack).collect();
+            if gaps.iter().any(|g| *g >= H - EPS && *g <= T + TICK + SLACK) {
+                rep.count("timelines_with_gap_inside_ambiguity_band", 1);
+            }
+        }
+        if judged > 0 && expiry_pending && !tl.kind.starts_with("anchor") {
+            rep.shape(format!("{} obs={}", tl.kind, obs_string));
+        }
+        if rep.samples.len() < 3 && judged > 0 && obs_string.contains('U') && (tl.kind.starts_with("resume") || tl.kind.starts_with("flip") || tl.kind.starts_with("take-over-then-direct")) {
+            let rel = |t: i64| t - start_ms;
+            rep.samples.push(json!({"run_seed": seed, "timeline": tl.kind, "port": tl.port, "observed_sequence": obs_string, "judged_observations": judged,
+                "recorded_operations": evs.iter().map(|e| json!([e.op.name(), rel(e.call), rel(e.ack)])).collect::<Vec<_>>(),
+                "probe_at_end_of_run": probe_inst.get(&tl.port)}));
+        }
+    }
+    Ok(RunOut { stalled })
+}
+
+pub fn run(args: &Args) -> anyhow::Result<()> {
+    if let Some(names) = args.get("hash") {
+        // helper for the cluster layer of lib/c13.py: get_hash_value of ServiceKey(public, DEFAULT_GROUP, name)
+        let v: Vec<Value> = names.split(',').map(|n| json!([n, get_hash_value(&ServiceKey::new("public", "DEFAULT_GROUP", n))])).collect();
+        println!("{}", serde_json::to_string(&v)?);
+        return Ok(());
+    }
+    let seed = args.u64("seed", 1);
+    let runs = args.u64("runs", 1);
+    let n_inst = args.u64("instances", 400) as usize;
+    let sys = actix_rt::System::new();
+    let rep = sys.block_on(async move {
+        let mut rep = Report::default();
+        let mut stalled = 0;
+        for k in 0..runs {
+            let o = one_run(seed * 100 + k, n_inst, &mut rep).await?;
+            if o.stalled {
+                stalled += 1;
+            }
+        }
+        if stalled == runs {
+            rep.inconclusive.push("every run of this shard saw a scheduling stall > 400 ms".to_string());
+        }
+        Ok::<Report, anyhow::Error>(rep)
+    })?;
+    rep.write(args)
 }
